@@ -15,9 +15,10 @@ import NostrRelay.Model.Live
 namespace NostrRelay.Proto
 
 /-- **C05 (fan-out is the registry)** — when an event is accepted, one notify task is created for
-    each subscription open at that moment and for nothing else, with no repetition -/
+    each subscription open at that moment and for nothing else, with no repetition (tasks of an earlier
+    round that are still pending stay pending) -/
 theorem C05_fanout_exact (s s' : State) (c ev : Nat) (h : Inv s) (hs : step s (.event c ev true) = some s') :
-    s'.notifyTasks = s.registry.map (fun r => (ev, r.inst)) ∧ s'.notifyTasks.Nodup := by
+    s'.notifyTasks = s.notifyTasks ++ s.registry.map (fun r => (ev, r.inst)) ∧ s'.notifyTasks.Nodup := by
   have hinv := inv_step s s' _ h hs
   refine ⟨?_, hinv.tasks_nodup⟩
   simp only [step] at hs
@@ -27,9 +28,7 @@ theorem C05_fanout_exact (s s' : State) (c ev : Nat) (h : Inv s) (hs : step s (.
     · simp at *
     · split at hs
       · cases hs
-      · split at hs
-        · cases hs
-        · cases hs; rfl
+      · cases hs; rfl
 
 /-- **C05 (at most once)** — in every reachable state no (event, subscription) pair has been pushed
     live twice, whatever the interleaving -/
@@ -85,19 +84,17 @@ theorem targeted_frozen (s s' : State) (l : Label) (ev i : Nat) (hst : ev ∈ s.
       · split at hs
         · cases hs
         · rename_i hfresh
-          split at hs
-          · cases hs
-          · cases hs
-            have hne : e ≠ ev := by
-              intro he; subst he; simp [hst] at hfresh
-            refine ⟨by show ev ∈ s.stored ++ [e]; simp [hst], ?_⟩
-            show (ev, i) ∈ s.targeted ++ (s.registry.map fun r => (e, r.inst)) ↔ _
-            simp only [List.mem_append, List.mem_map, Prod.mk.injEq]
-            constructor
-            · rintro (a | ⟨r, _, he, _⟩)
-              · exact a
-              · exact absurd he hne
-            · intro a; left; exact a
+          cases hs
+          have hne : e ≠ ev := by
+            intro he; subst he; simp [hst] at hfresh
+          refine ⟨by show ev ∈ s.stored ++ [e]; simp [hst], ?_⟩
+          show (ev, i) ∈ s.targeted ++ (s.registry.map fun r => (e, r.inst)) ↔ _
+          simp only [List.mem_append, List.mem_map, Prod.mk.injEq]
+          constructor
+          · rintro (a | ⟨r, _, he, _⟩)
+            · exact a
+            · exact absurd he hne
+          · intro a; left; exact a
   | notify e j m =>
     simp only [step] at hs
     split at hs
@@ -151,20 +148,18 @@ theorem C05_only_open_at_accept (s s1 s2 : State) (c ev i : Nat) (sched : List L
     · split at hs
       · cases hs
       · rename_i hfresh
-        split at hs
-        · cases hs
-        · cases hs
-          have hst1 : ev ∈ (s.stored ++ [ev]) := by simp
-          have ht1 := (targeted_frozen_run _ s2 sched ev i hst1 hr).mp ht2
-          replace ht1 : (ev, i) ∈ s.targeted ++ (s.registry.map fun r => (ev, r.inst)) := ht1
-          simp only [List.mem_append, List.mem_map, Prod.mk.injEq, true_and] at ht1
-          rcases ht1 with a | ⟨r, hr', he⟩
-          · exfalso
-            have hfresh' : ev ∉ s.stored := by simpa using hfresh
-            rcases (hinv.targeted_iff _).mp a with b | b
-            · exact hfresh' (hinv.tasks_stored _ b)
-            · exact hfresh' (hinv.resolved_stored _ b)
-          · exact ⟨r, hr', he⟩
+        cases hs
+        have hst1 : ev ∈ (s.stored ++ [ev]) := by simp
+        have ht1 := (targeted_frozen_run _ s2 sched ev i hst1 hr).mp ht2
+        replace ht1 : (ev, i) ∈ s.targeted ++ (s.registry.map fun r => (ev, r.inst)) := ht1
+        simp only [List.mem_append, List.mem_map, Prod.mk.injEq, true_and] at ht1
+        rcases ht1 with a | ⟨r, hr', he⟩
+        · exfalso
+          have hfresh' : ev ∉ s.stored := by simpa using hfresh
+          rcases (hinv.targeted_iff _).mp a with b | b
+          · exact hfresh' (hinv.tasks_stored _ b)
+          · exact hfresh' (hinv.resolved_stored _ b)
+        · exact ⟨r, hr', he⟩
 
 /-- **C05 (every target is evaluated, once)** — when the notification round has run (no task
     pending) every subscription that was targeted has been evaluated exactly once -/
